@@ -195,3 +195,27 @@ REG.add(Contract(F_ET, 'Excel_FinnisSinclair_EAMTabulation._add_eam_density', pa
     post_names=['every-declared-A->B-density-is-stored-under-the-label-A->B', 'no-other-label', 'columns-are-the-sorted-labels', 'sheet-EAM-Density-filled-with-them-on-the-r-grid'],
     invariants={0: _fs_inv0, 1: _fs_inv1}, ghost={'pot_dict': T.Dict(T.Str, T.Fn)}, definitions=lambda: sheet_axioms() + title_axioms() + BE_.sorted_axioms(), on_raise=lambda v, old: [],
     carries=['post', 'preserve/0', 'preserve/1'], props=['C04', 'C19']))
+
+# ---------------------------------------------------------------- Excel_PairTabulation._add_pair_worksheet (C19): the column headed "A-B" (labels sorted within the pair)
+REG.add_class(ClassDecl(F_PT, 'Excel_PairTabulation_W', {'_potentials': T.List(T.Obj('Potential')), '_nr': T.Int, '_cutoff': T.Real}, pyname='Excel_PairTabulation'))
+p_pots = field('Excel_PairTabulation_W', '_potentials', PotList); p_nr = field('Excel_PairTabulation_W', '_nr', IntS); p_cut = field('Excel_PairTabulation_W', '_cutoff', RealS)
+def pair_label(a, b): return str_of_text(tok("{}-{}", a, b))
+def _pl_pre(v):
+    a, b = z3.Strings('a!pl b!pl')
+    return [p_nr(v.self) >= 2, z3.ForAll([a, b], z3.And(label_central(pair_label(a, b)) == a, label_neighbour(pair_label(a, b)) == b), patterns=[pair_label(a, b)])]
+def _pair_dict(d, ps, n):
+    """a label is a key iff it is the label of the unordered species pair of one of the first n potentials, and then it maps to the energy function of the LAST such potential"""
+    K = z3.String('K!pd'); a, b = label_central(K), label_neighbour(K); i = find(ps, a, b, n)
+    ok = z3.And(K == pair_label(a, b), a <= b, i >= 0)
+    return [z3.ForAll([K], z3.And(z3.Select(d.has, K) == ok, z3.Implies(ok, z3.Select(d.get, K) == pot_fn(ps[i]))))]      # (no explicit pattern: the stored keys contain conditional terms)
+def _pl_post(v, old, res):
+    ps = p_pots(v.self); d = v.pot_dict; keys = v.column_heads; ws0 = z3.Const('created!pair', WS)
+    return (_pair_dict(d, ps, z3.Length(ps)) + [keys == BE_.sorted_strs(d.has)] +
+            [z3.Exists([ws0], z3.And(*(_fresh_sheet(ws0, z3.StringVal('Pair')) + populated(v.ws, ws0, z3.StringVal('r'), grid_seq(p_cut(v.self), p_nr(v.self), p_nr(v.self)), keys, d.get))))])
+REG.add(Contract(F_PT, '_r_value_iterator@pair', params=[('tabulation', T.Obj('Excel_PairTabulation_W'))], requires=lambda v: [p_nr(v.tabulation) >= 2], result=T.List(T.Real), generator=True,
+    ensures=lambda v, old, res: [res == grid_seq(p_cut(v.tabulation), p_nr(v.tabulation), p_nr(v.tabulation))],
+    invariants={0: lambda v, old: [v.yielded == grid_seq(p_cut(v.tabulation), p_nr(v.tabulation), v._i0)]}, ghost={'yielded': T.Real}, carries=['post', 'preserve/0'], props=['C19', 'C11']))
+REG.add(Contract(F_PT, 'Excel_PairTabulation._add_pair_worksheet', params=[('self', T.Obj('Excel_PairTabulation_W')), ('wb', T.Obj('Workbook'))],
+    requires=_pl_pre, ensures=_pl_post, post_names=['label-of-the-unordered-pair-holds-the-last-declared-function', 'columns-are-the-sorted-labels', 'sheet-Pair-filled-with-them-on-the-r-grid'],
+    invariants={0: lambda v, old: _pair_dict(v.pot_dict, p_pots(v.self), v._i0)}, ghost={'pot_dict': T.Dict(T.Str, T.Fn)},
+    definitions=lambda: sheet_axioms() + title_axioms() + BE_.sorted_axioms(), on_raise=lambda v, old: [], carries=['post', 'preserve/0'], props=['C19']))
